@@ -110,7 +110,7 @@ def c05_family(img, rng, quick, for_model=True):
     for cs in (1 << 20, 65536, 4096):
         if cs < n:
             fam.append(('fixed%d' % cs, G.fixed(n, cs)))
-    if n <= 40 * G.K or not for_model:
+    if n <= 40 * G.K or (not for_model and not os.environ.get('VERIF_AMBIENT')):      # ambient children: coarse reads of long streams only
         for cs in (512, 64, 17):
             if cs < n and n // cs <= 20000:
                 fam.append(('fixed%d' % cs, G.fixed(n, cs)))
@@ -413,7 +413,8 @@ def search(ctx, seeds, full=False):
             ctx.count('search/' + '/'.join(img.tag.split('/')[:2]))
             check_image(ctx, img, c05_family(img, rng, ctx.quick, False), fails)
             # every header again, followed by more data than the bound (what an unclamped length would swallow)
-            if len(img.data) < 2 * G.bound(img.fmt) and (img.tag.startswith(('hostile/', 'mut/')) or full):
+            if len(img.data) < 2 * G.bound(img.fmt) and (img.tag.startswith(('hostile/', 'mut/')) or full) \
+                    and (not G.ambient(ctx) or img.tag.startswith('hostile/')):
                 n = len(img.data)
                 ext = G.Img(img.fmt, img.data + b'\n' * (2 * G.bound(img.fmt)), img.bounds, img.tag + '+ext')
                 check_image(ctx, ext, [('one', [len(ext.data)]), ('fixed65536', G.fixed(len(ext.data), 65536)),
